@@ -1187,6 +1187,11 @@ func (te *TemplateEngine) cloneRun(source *Run) Run {
 		Text:       Text{Content: source.Text.Content, Space: source.Text.Space},
 	}
 
+	// 复制分页符（如果有）
+	if source.Break != nil {
+		newRun.Break = &Break{Type: source.Break.Type}
+	}
+
 	// 复制图像（如果有）
 	if source.Drawing != nil {
 		// 暂时保持简单复制，图像的深度复制比较复杂
@@ -1203,6 +1208,27 @@ func (te *TemplateEngine) cloneRun(source *Run) Run {
 		newRun.InstrText = source.InstrText
 	}
 
+	return newRun
+}
+
+// cloneRunFormat 只复制Run的格式（属性和xml:space），不含文本和非文本内容，
+// 用于由一个Run拆分或替换出来的文本片段，避免分页符、图片等被重复
+func (te *TemplateEngine) cloneRunFormat(source *Run) Run {
+	return Run{
+		Properties: te.cloneRunProperties(source.Properties),
+		Text:       Text{Space: source.Text.Space},
+	}
+}
+
+// hasRunContent 判断Run是否带有非文本内容（分页符、图片、域字符、域指令）
+func hasRunContent(run *Run) bool {
+	return run.Break != nil || run.Drawing != nil || run.FieldChar != nil || run.InstrText != nil
+}
+
+// cloneRunContent 返回只带非文本内容的Run副本（序列化时非文本内容位于文本之后）
+func (te *TemplateEngine) cloneRunContent(source *Run) Run {
+	newRun := te.cloneRun(source)
+	newRun.Text.Content = ""
 	return newRun
 }
 
@@ -2107,7 +2133,7 @@ func (te *TemplateEngine) replaceVariablesInParagraph(para *Paragraph, data *Tem
 	currentIndex := 0
 	for i := range para.Runs {
 		runText := para.Runs[i].Text.Content
-		if runText != "" {
+		if runText != "" || hasRunContent(&para.Runs[i]) {
 			runInfos = append(runInfos, struct {
 				startIndex int
 				endIndex   int
@@ -2240,6 +2266,13 @@ func (te *TemplateEngine) replaceVariablesSequentially(originalRunInfos []struct
 			newRuns = append(newRuns, beforeRuns...)
 		}
 
+		// 占位符范围内的无文本Run（分页符、图片等）保留在替换文本之前
+		for _, runInfo := range originalRunInfos {
+			if runInfo.startIndex == runInfo.endIndex && runInfo.startIndex >= varStart && runInfo.startIndex < varEnd {
+				newRuns = append(newRuns, te.cloneRun(runInfo.run))
+			}
+		}
+
 		// 处理变量替换
 		varName := originalText[varNameStart:varNameEnd]
 		if value, exists := data.Variables[varName]; exists {
@@ -2248,7 +2281,7 @@ func (te *TemplateEngine) replaceVariablesSequentially(originalRunInfos []struct
 			// 为变量选择合适的样式（使用覆盖变量位置的Run样式）
 			varRun := te.findRunForPosition(originalRunInfos, varStart)
 			if varRun != nil {
-				newRun := te.cloneRun(varRun)
+				newRun := te.cloneRunFormat(varRun)
 				newRun.Text.Content = replacementText
 				newRuns = append(newRuns, newRun)
 				hasChanges = true
@@ -2258,9 +2291,16 @@ func (te *TemplateEngine) replaceVariablesSequentially(originalRunInfos []struct
 			varText := originalText[varStart:varEnd]
 			varRun := te.findRunForPosition(originalRunInfos, varStart)
 			if varRun != nil {
-				newRun := te.cloneRun(varRun)
+				newRun := te.cloneRunFormat(varRun)
 				newRun.Text.Content = varText
 				newRuns = append(newRuns, newRun)
+			}
+		}
+
+		// 文本在占位符范围内结束的Run，其非文本内容保留在替换文本之后
+		for _, runInfo := range originalRunInfos {
+			if runInfo.endIndex > runInfo.startIndex && runInfo.endIndex > varStart && runInfo.endIndex <= varEnd && hasRunContent(runInfo.run) {
+				newRuns = append(newRuns, te.cloneRunContent(runInfo.run))
 			}
 		}
 
@@ -2272,6 +2312,13 @@ func (te *TemplateEngine) replaceVariablesSequentially(originalRunInfos []struct
 		afterText := originalText[currentPos:]
 		afterRuns := te.extractRunsForSegment(originalRunInfos, currentPos, len(originalText), afterText)
 		newRuns = append(newRuns, afterRuns...)
+	}
+
+	// 位于全部文本之后的无文本Run
+	for _, runInfo := range originalRunInfos {
+		if runInfo.startIndex == runInfo.endIndex && runInfo.startIndex >= len(originalText) {
+			newRuns = append(newRuns, te.cloneRun(runInfo.run))
+		}
 	}
 
 	// 如果没有找到任何变量但文本发生了变化，处理条件语句
@@ -2328,15 +2375,15 @@ func (te *TemplateEngine) processConditionals(originalRunInfos []struct {
 		return newRuns, false
 	}
 
-	// 有条件语句被处理，简化处理
-	if len(originalRunInfos) == 1 {
-		newRun := te.cloneRun(originalRunInfos[0].run)
-		newRun.Text.Content = processedText
-		return []Run{newRun}, true
+	// 有条件语句被处理，简化处理：使用第一个带文本的Run的样式
+	styleRun := originalRunInfos[0].run
+	for _, runInfo := range originalRunInfos {
+		if runInfo.endIndex > runInfo.startIndex {
+			styleRun = runInfo.run
+			break
+		}
 	}
-
-	// 多个Run的情况，使用第一个Run的样式
-	newRun := te.cloneRun(originalRunInfos[0].run)
+	newRun := te.cloneRun(styleRun)
 	newRun.Text.Content = processedText
 	return []Run{newRun}, true
 }
@@ -2350,13 +2397,21 @@ func (te *TemplateEngine) extractRunsForSegment(originalRunInfos []struct {
 	runs := make([]Run, 0)
 
 	for _, runInfo := range originalRunInfos {
+		// 无文本的Run（分页符、图片、域）保持在原来的位置
+		if runInfo.startIndex == runInfo.endIndex {
+			if runInfo.startIndex >= segmentStart && runInfo.startIndex < segmentEnd {
+				runs = append(runs, te.cloneRun(runInfo.run))
+			}
+			continue
+		}
+
 		// 检查Run是否与文本段有重叠
 		if runInfo.endIndex > segmentStart && runInfo.startIndex < segmentEnd {
 			overlapStart := max(runInfo.startIndex, segmentStart)
 			overlapEnd := min(runInfo.endIndex, segmentEnd)
 
 			if overlapEnd > overlapStart {
-				newRun := te.cloneRun(runInfo.run)
+				newRun := te.cloneRunFormat(runInfo.run)
 				// 计算在分段文本中的相对位置
 				relativeStart := overlapStart - segmentStart
 				relativeEnd := overlapEnd - segmentStart
@@ -2367,6 +2422,11 @@ func (te *TemplateEngine) extractRunsForSegment(originalRunInfos []struct {
 					if newRun.Text.Content != "" {
 						runs = append(runs, newRun)
 					}
+				}
+
+				// Run的非文本内容跟随它的最后一段文本，只保留一份
+				if overlapEnd == runInfo.endIndex && hasRunContent(runInfo.run) {
+					runs = append(runs, te.cloneRunContent(runInfo.run))
 				}
 			}
 		}
